@@ -394,6 +394,9 @@ func paramNames(callee *ssa.Function, spec *FuncSpec) []string {
 // havocLocation forgets the contents of a location named in a modifies
 // clause: "*p", "p.f", "elems(p)".
 func (fr *Frame) havocLocation(env *Env, loc string, st *State, who string) {
+	if strings.TrimSpace(loc) == "nothing" {
+		return
+	}
 	e, err := parseExpr(loc)
 	if err != nil {
 		unsupp("modifies clause of %s: %v", who, err)
